@@ -63,6 +63,8 @@ def addArithBySize (opcode : BitVec 32) (size : Nat) : BitVec 32 :=
 
 def Op.isGp8Hi : Op → Bool | .reg 3 _ => true | _ => false
 def Op.isSReg : Op → Bool | .reg 25 _ => true | _ => false
+/-- `Reg::is_gp()`: GPB-lo, GPB-hi, GPW, GPD, GPQ -/
+def Op.isGp : Op → Bool | .reg t _ => t ≥ 2 && t ≤ 6 | _ => false
 
 /-- `FIXUP_GPB(REG_OP, REG_ID)`: returns (options, id) -/
 def fixupGpb (options : BitVec 32) (o : Op) (id : BitVec 32) : BitVec 32 × BitVec 32 :=
@@ -357,6 +359,37 @@ def dispatch (c : Ctx) (r : Row) (options : BitVec 32) (o0 o1 o2 o3 : Op) : Exce
       else if o0.rmSize != 2 && o0.rmSize != (if c.mode64 then 8 else 4) then .error .invalidInstruction
       else emitX86M c (opcode ||| (if o0.rmSize == 2 then kPP_66 else 0#32)) options opReg0 (memOf o0) 0 0
     else .error .invalidInstruction
+  | 0x2b =>                                                                       -- X86Lea
+    if isign3 == RM then emitX86M c (addPrefixBySize opcode o0.rmSize) options (r32 o0.id) (memOf o1) 0 0
+    else .error .invalidInstruction
+  | 0x2c =>                                                                       -- X86Mov: general-purpose register / memory / immediate forms
+    -- (segment / control / debug registers and the moffs `movabs` forms answer `unmodelled`)
+    if isign3 == RR then
+      if o0.isGp && o1.isGp then
+        if o0.rmSize != o1.rmSize then .error .invalidInstruction else
+        if o0.rmSize == 1 then
+          let (opt1, rb) := fixupGpb options o0 (r32 o0.id)
+          let (opt2, rg) := fixupGpb opt1 o1 (r32 o1.id)
+          if (options &&& oModRM) == 0#32 then emitX86R 0x88#32 opt2 rg rb 0 0
+          else emitX86R 0x8A#32 opt2 rb rg 0 0
+        else
+          let opc := addPrefixBySize 0x89#32 o0.rmSize
+          if (options &&& oModRM) == 0#32 then emitX86R opc options (r32 o1.id) (r32 o0.id) 0 0
+          else emitX86R (opc + 2#32) options (r32 o0.id) (r32 o1.id) 0 0
+      else .error .unmodelled
+    else if isign3 == RM then
+      if !o0.isGp then .error .unmodelled else
+      let m := memOf o1
+      if o0.id == 0 && m.baseType == 0 && m.indexType == 0 then .error .unmodelled else
+      let (opt1, rg) := if o0.rmSize == 1 then fixupGpb options o0 (r32 o0.id) else (options, r32 o0.id)
+      emitX86M c (addArithBySize 0#32 o0.rmSize + 0x8A#32) opt1 rg m 0 0
+    else if isign3 == MR then
+      if !o1.isGp then .error .unmodelled else
+      let m := memOf o0
+      if o1.id == 0 && m.baseType == 0 && m.indexType == 0 then .error .unmodelled else
+      let (opt1, rg) := if o1.rmSize == 1 then fixupGpb options o1 (r32 o1.id) else (options, r32 o1.id)
+      emitX86M c (addArithBySize 0#32 o1.rmSize + 0x88#32) opt1 rg m 0 0
+    else .error .unmodelled
   | 0x26 => emitJmpCall c opcode options 0#32 r.altOp o0 false                   -- X86Jcc
   | 0x28 =>                                                                       -- X86Jmp
     if isign3 == 1 then emitX86R (opcode ||| (if o0.rmSize == 2 then kPP_66 else 0#32)) options opReg0 (r32 o0.id) 0 0
